@@ -267,6 +267,7 @@ impl Module for M {
             }
             "styled.translate" => {
                 let d = t.point();
+                let mut prim_bb = (true, Rectangle::zero(), Rectangle::zero(), Rectangle::zero());
                 let (m0, md, mm, bb0, bbd, pts_ok, npts) = with_shape!(&shape, p => {
                     let s = Styled::new(p.clone(), style);
                     let sd = s.translate(d);
@@ -282,7 +283,18 @@ impl Module for M {
                     let p0: Vec<Point> = p.points().collect();
                     let pd: Vec<Point> = p.translate(d).points().collect();
                     let ok = p0.len() == pd.len() && p0.iter().zip(pd.iter()).all(|(a, b)| *a + d == *b);
+                    // bounding box of the (unstyled) primitive itself, moved with translate and with translate_mut
+                    let pb0 = p.bounding_box();
+                    let pbd = p.translate(d).bounding_box();
+                    let mut pm = p.clone();
+                    pm.translate_mut(d);
+                    let pbm = pm.bounding_box();
+                    let pb_ok = if pb0.is_zero_sized() { pbd.is_zero_sized() && pbm == pbd } else { pbd == Rectangle::new(pb0.top_left + d, pb0.size) && pbm == pbd };
+                    prim_bb = (pb_ok, pb0, pbd, pbm);
                     (a.rec.map, b.rec.map, c.rec.map, s.bounding_box(), sd.bounding_box(), ok, p0.len())
+                });
+                ctx.expect(prim_bb.0, &format!("C07:primitive-bbox-not-shifted:{}", kind), || {
+                    format!("{} -> translate {} / translate_mut {}", fmt_rect(&prim_bb.1), fmt_rect(&prim_bb.2), fmt_rect(&prim_bb.3))
                 });
                 if !m0.is_empty() && d != Point::zero() {
                     ctx.nontrivial(op);
@@ -293,6 +305,17 @@ impl Module for M {
                     format!("{} px vs {} px, {} differing entries", md.len(), want.len(), diff)
                 });
                 ctx.expect(mm == md, &format!("C07:translate-mut-differs:{}", kind), || "translate_mut and translate give different pictures".into());
+                if let Shape::Poly(v, tr) = &shape {
+                    // a polyline moved by moving its vertices (instead of its translate field)
+                    let moved: Vec<Point> = v.iter().map(|q| *q + d).collect();
+                    let pl = embedded_graphics::primitives::Polyline::new(&moved).translate(*tr);
+                    let mut r = R1::<Rgb565>::unbounded();
+                    Styled::new(pl, style).draw(&mut r).unwrap();
+                    ctx.expect(r.rec.map == want, "C07:draw-not-shifted:poly-moved-vertices", || format!("{} px vs {} px", r.rec.map.len(), want.len()));
+                    let b0 = embedded_graphics::primitives::Polyline::new(&v[..]).translate(*tr).bounding_box();
+                    let b1 = pl.bounding_box();
+                    ctx.expect(if b0.is_zero_sized() { b1.is_zero_sized() } else { b1 == Rectangle::new(b0.top_left + d, b0.size) }, "C07:primitive-bbox-not-shifted:poly-moved-vertices", || format!("{} -> {}", fmt_rect(&b0), fmt_rect(&b1)));
+                }
                 if !bb0.is_zero_sized() {
                     ctx.expect(bbd == Rectangle::new(bb0.top_left + d, bb0.size), &format!("C07:bbox-not-shifted:{}", kind), || format!("{} -> {}", fmt_rect(&bb0), fmt_rect(&bbd)));
                 } else {
